@@ -178,3 +178,11 @@ where
     a=ok.index("    fn to_cbor_value(self) -> Result<Value> {\n        let mut map: Vec<(Value, Value)> = vec![(KTY.to_cbor_value()?")
     b=ok.index("        Ok(Value::Map(map))\n    }\n",a)+len("        Ok(Value::Map(map))\n    }\n")
     add('key',ok[a:b],open(__import__('os').path.join(__import__('os').path.dirname(__file__),'key_enc.rs')).read())
+
+    # --- Header::from_cbor_value
+    hs=open('/repo/src/header/mod.rs').read()
+    a=hs.index("impl AsCborValue for Header {\n    fn from_cbor_value(value: Value) -> Result<Self> {")
+    b=hs.index("        Ok(headers)\n    }\n",a)+len("        Ok(headers)\n    }\n")
+    old=hs[a:b].replace("CoseSignature::from_cbor_value(","crate::vstubs::sig_from_cbor_value__stub(").replace("text.matches('/').count()","crate::vprelude::str_count_matches(&text, '/')").replace("text.trim() != text","crate::vprelude::str_ne_string(text.trim(), text)")
+    import os
+    add('header',old,open(os.path.join(os.path.dirname(__file__),'hdr_dec.rs')).read())
